@@ -16,7 +16,7 @@ A = len(ALPHA)
 RULE = ("exhaustive enumeration of all strings over the 14-symbol critical alphabet "
         "{\\ n N ; , : \" % 2 C CR LF SP a} up to a length bound on three paths (vText codec with str and "
         "bytes input; add(name, s) -> to_ical -> from_ical for SUMMARY/DESCRIPTION/X-; CATEGORIES lists of "
-        "1-3 items, codec and component path) plus Hypothesis long Unicode strings (delimiter-biased). "
+        "1-3 items, codec and component path) plus a fixed sweep of 18 layer-special characters (BOM, Unicode line separators, controls) at start/middle/end on all paths, plus Hypothesis long Unicode strings (delimiter-biased, special characters leading). "
         "Oracle: decoded == s after the two documented normalisations (CRLF->LF, backslash-N->LF, either "
         "order); independent scanner over the encoded form (no LF, every ; and , preceded by an odd number "
         "of backslashes). Non-trivial: the string (or an item) contains one of \\ ; , CR LF; distinct by "
@@ -206,11 +206,28 @@ REGIONS = {"rcb-text-value": region_rcb_text}
 
 # ----------------------------------------------------------------------------- streams
 
+# characters that are special to *some* layer (BOM, Unicode line boundaries for str.splitlines, C0/C1 controls)
+SPECIALS = ["\ufeff", "\u2028", "\u2029", "\x85", "\x0b", "\x0c", "\x1c", "\x1d", "\x1e", "\x00", "\x7f", "\t", "\r",
+            "\ufffe", "\uffff", "\U0010ffff", "\u00a0", "\u200b"]
+
+
+def _special_cases():
+    out = []
+    for ch in SPECIALS:
+        for s in (ch, ch + "hello", "hello" + ch, "he" + ch + "llo", ch + ";" + ch, ch * 2 + "\\" + ch, "a," + ch):
+            out.append({"path": "codec", "s": s})
+            out.append({"path": "prop", "name": "summary", "s": s})
+            out.append({"path": "catcodec", "items": [s, "x"]})
+            out.append({"path": "cat", "items": ["x", s]})
+    return out
+
+
 _long_alpha = st.one_of(
+    st.sampled_from(SPECIALS),
     st.sampled_from(ALPHA + ["\\", "\\", ";", ",", "\r\n", "\\n", "\\N", "%2C", "%5C", "\\\\"]),
     st.characters(blacklist_categories=("Cs",)),
 )
-long_text = st.lists(_long_alpha, min_size=0, max_size=400).map("".join)
+long_text = st.tuples(st.sampled_from([""] * 6 + SPECIALS), st.lists(_long_alpha, min_size=0, max_size=400).map("".join)).map("".join)
 
 
 def _hyp_cases():
@@ -250,6 +267,7 @@ def streams(tier):
                           True, True))
     out.append(Stream("catcodec-exhaustive", "enum", ncat, 8, lambda i: _cat_case(i, "catcodec", c1, c2), True, True))
     out.append(Stream("cat-exhaustive", "enum", ncat, 8, lambda i: _cat_case(i, "cat", c1, c2), True, True))
+    out.append(Stream("special-characters", "fixed", 0, 2, _special_cases, True, False))
     out.append(Stream("long-unicode", "hyp", hyp_n, 16, _hyp_cases))
     return out
 
